@@ -2150,3 +2150,82 @@ func ruleContextLiteralsComplete(c *core.Ctx) {
 		})
 	}
 }
+
+// X9: size() means the same number in every language. For each shape of its first argument (vector, map, array) and
+// number of arguments, the first token an emitter prints for the built-in size() is the target language's way of
+// getting that number (refs/operators.json: size_function) — in particular the element count of an N-d array is
+// numpy's `.size` / yardl::size / numel, never a first-extent `len()`.
+func ruleSizeFunctionTokens(c *core.Ctx) {
+	const rule = "X9"
+	c.Rule(rule, "each expression emitter prints, for size(x) and size(x, d), the token of refs/operators.json for the shape of x (vector / map / array) and the number of arguments", 12)
+	var ref struct {
+		Size map[string]map[string]string `json:"size_function"`
+	}
+	if err := loadRef("operators.json", &ref); err != nil || ref.Size == nil {
+		c.Undecided(rule, "refs/operators.json", 0, "size_function table missing")
+		return
+	}
+	punct := map[string]bool{")": true, ", ": true, ",": true, "]": true, "": true, ")-(": true}
+	for _, em := range exprEmitters {
+		rows, d := flatRows(c, em.pkg, em.fn)
+		if d == nil {
+			c.Undecided(rule, em.name+"/anchor", 0, "emitter not found")
+			continue
+		}
+		var sizeRows []gee.Row
+		subj := ""
+		for _, r := range rows {
+			if r.Kind != "emit" {
+				continue
+			}
+			isSize := false
+			for _, g := range r.Guards {
+				g = stripDsl(g)
+				if sj, elems, neg, ok := parseSetGuard(g); ok && !neg && strings.HasSuffix(sj, "FunctionName") {
+					for _, e := range elems {
+						if strings.Trim(e, "\"") == "size" || e == "FunctionSize" {
+							isSize = true
+						}
+					}
+				}
+				if sj, _, _, ok := parseSetGuard(g); ok && strings.HasPrefix(sj, "type(") && strings.HasSuffix(sj, ".Dimensionality)") {
+					subj = sj
+				}
+			}
+			if isSize {
+				sizeRows = append(sizeRows, r)
+			}
+		}
+		if len(sizeRows) == 0 {
+			c.Undecided(rule, em.name+"/size()", d.Pos(), "no emission under FunctionName == size found")
+			continue
+		}
+		for sc, want := range ref.Size[em.name] {
+			parts := strings.Split(sc, "/")
+			dim, nargs := parts[0], parts[1]
+			asg := map[string]string{subj: dim,
+				"len(FunctionCallExpression.Arguments) == 1": map[string]string{"1": "true", "2": "false"}[nargs],
+				"len(FunctionCallExpression.Arguments) > 1":  map[string]string{"1": "false", "2": "true"}[nargs],
+				"len(FunctionCallExpression.Arguments) == 2": map[string]string{"1": "false", "2": "true"}[nargs],
+				"len(FunctionCallExpression.Arguments) >= 2": map[string]string{"1": "false", "2": "true"}[nargs],
+				"len(FunctionCallExpression.Arguments) < 2":  map[string]string{"1": "true", "2": "false"}[nargs],
+			}
+			got := ""
+			var at = d.Pos()
+			for _, r := range sizeRows {
+				var gs []string
+				for _, g := range r.Guards {
+					g = stripDsl(g)
+					if sj, _, _, ok := parseSetGuard(g); ok && (strings.HasSuffix(sj, "FunctionName") || sj == "type(Node)") {
+						continue
+					}
+					gs = append(gs, g)
+				}
+				if sat, unk := guardSat(gs, asg); sat && len(unk) == 0 && !punct[strings.TrimSpace(r.Tmpl)] && got == "" {
+					got, at = r.Tmpl, r.Pos
+				}
+			}
+			c.Check(got == want, rule, em.name+"/size/"+sc, at, "prints `"+got+"`", fmt.Sprintf("for size() of a %s with %s argument(s) the %s emitter prints `%s`, the reference token is `%s`: the computed field yields a different number than in the other languages (e.g. the first extent instead of the element count)", dim, nargs, em.name, got, want))
+		}
+	}
+}
